@@ -66,6 +66,9 @@ enum Base {
     SerFailWriter,
     /// validated parse (garde) that fails validation of a value that came through an alias
     ValidatedFail,
+    /// validated parse (validator crate) with six failing fields: the order of the issues, the
+    /// located one and the parameters of each must not depend on a hash seed
+    ValidatorFail,
     /// two documents that reuse the same anchor name
     Multi,
     /// from_reader with shared anchors
@@ -75,10 +78,10 @@ enum Base {
     IterShared,
 }
 use Base::*;
-const BASES: [Base; 25] = [
+const BASES: [Base; 26] = [
     ParseOk, AnchoredSyntaxFail, AnchoredTypeFail, FailInRcContext, FailInAliasReplay, BudgetBreach, BudgetExact,
     AliasLimitExact, SharedRc, SharedArc, Recursive, MissingField, UnknownField, RootStaticError, DupKey, IterAbandon,
-    IterFull, VisitorPanics, CaughtPanicInside, SerAnchors, SerFailWriter, ValidatedFail, Multi, ReaderShared, IterShared,
+    IterFull, VisitorPanics, CaughtPanicInside, SerAnchors, SerFailWriter, ValidatedFail, Multi, ReaderShared, IterShared, ValidatorFail,
 ];
 
 /// the outer document of a nested call
@@ -137,6 +140,7 @@ fn core_alphabet() -> Vec<Call> {
         Call::B(SerAnchors),
         Call::B(SerFailWriter),
         Call::B(ValidatedFail),
+        Call::B(ValidatorFail),
         Call::Nested(Outer::Before, SharedRc),
         Call::Nested(Outer::Missing, MissingField),
         Call::B(AnchoredTypeFail),
@@ -182,6 +186,7 @@ fn disturbing(c: &Call) -> bool {
                 | CaughtPanicInside
                 | SerFailWriter
                 | ValidatedFail
+                | ValidatorFail
         ),
     }
 }
@@ -350,6 +355,23 @@ struct Validated {
     first: String,
     #[garde(length(min = 5))]
     second: String,
+}
+
+#[derive(Deserialize, validator::Validate, Debug)]
+#[allow(dead_code)]
+struct Validated6 {
+    #[validate(length(min = 5, max = 9))]
+    a: String,
+    #[validate(length(min = 5))]
+    b: String,
+    #[validate(length(min = 5, max = 7))]
+    c: String,
+    #[validate(range(min = 3, max = 8))]
+    d: i32,
+    #[validate(length(min = 5))]
+    e: String,
+    #[validate(length(min = 5))]
+    f: String,
 }
 
 struct FailAfter(usize);
@@ -540,6 +562,7 @@ fn run_base(b: Base) -> String {
             }
         }
         ValidatedFail => res_obs(serde_saphyr::from_str_valid::<Validated>("first: &v abc\nsecond: *v\n")),
+        ValidatorFail => res_obs(serde_saphyr::from_str_validate::<Validated6>("a: x\nb: &v y\nc: *v\nd: 1\ne: zz\nf: q\n")),
         Multi => {
             #[derive(Deserialize)]
             struct D {
@@ -583,7 +606,7 @@ fn marker(b: Base) -> &'static [&'static str] {
         IterAbandon => &["OK {\"a\": [1], \"b\": [1]}"],
         IterFull => &["OK {\"a\": [1], \"b\": [1]} ;; OK {\"c\": [2], \"d\": [2]} ;; ERR"],
         AnchoredSyntaxFail | AnchoredTypeFail | FailInRcContext | FailInAliasReplay | BudgetBreach | MissingField
-        | UnknownField | RootStaticError | DupKey | SerFailWriter | ValidatedFail => &["ERR"],
+        | UnknownField | RootStaticError | DupKey | SerFailWriter | ValidatedFail | ValidatorFail => &["ERR"],
     }
 }
 
@@ -866,7 +889,7 @@ impl Property for C15 {
     const ID: &'static str = "C15";
     type Case = Case;
     fn rule() -> String {
-        "cases = call histories over an alphabet of 24 base calls (successful parse; syntax / type error midway through an anchored node; error inside an RcAnchor context and inside a replayed alias; budget breach; budget and alias-replay limit set exactly to what the document needs; shared RcAnchor / ArcAnchor / weak / RcRecursive parses observed through pointer classes and strong counts; missing-field, unknown-field and a root-level static serde error whose location can only come from the thread-local fallback; duplicate key; streaming iterator abandoned after one item / run to its failing end; Deserialize impl that panics (caught outside) and one whose panic is caught inside the document; serialisation with anchors and into a failing writer; garde-validated parse that fails; multi-document parse reusing anchor names; from_reader) plus 25 nested calls (an inner call performed inside the Deserialize impl of a field of an outer document whose anchors / aliases lie before, around and after it, or which ends in a missing-/unknown-field error). Every history runs on one fresh thread. Oracle: each call's observation (value Debug, or error Debug + rendered message with location, pointer classes, emitted text) equals the observation of the same call alone on a fresh thread; for nested calls the inner observation equals the isolated inner call and the outer observation equals the same outer document parsed without a nested call; isolated observations are equal on two fresh threads and contain the documented constants (sharing classes, anchors &a1/*a1). Exhaustive: all histories of length <= 3 over the full alphabet (quick; thorough: <= 4), all of length 4 over a 28-call core alphabet; random histories of length 4..12. Non-trivial: a failing / panicking / nested / abandoned call precedes a call whose observation includes pointer classes or a fallback location. distinct = distinct histories.".into()
+        "cases = call histories over an alphabet of 26 base calls (successful parse; syntax / type error midway through an anchored node; error inside an RcAnchor context and inside a replayed alias; budget breach; budget and alias-replay limit set exactly to what the document needs; shared RcAnchor / ArcAnchor / weak / RcRecursive parses observed through pointer classes and strong counts; missing-field, unknown-field and a root-level static serde error whose location can only come from the thread-local fallback; duplicate key; streaming iterator abandoned after one item / run to its failing end; Deserialize impl that panics (caught outside) and one whose panic is caught inside the document; serialisation with anchors and into a failing writer; garde-validated parse that fails; validator-crate parse with six failing fields (issue order, located issue and parameters must not depend on a hash seed); multi-document parse reusing anchor names; from_reader) plus 25 nested calls (an inner call performed inside the Deserialize impl of a field of an outer document whose anchors / aliases lie before, around and after it, or which ends in a missing-/unknown-field error). Every history runs on one fresh thread. Oracle: each call's observation (value Debug, or error Debug + rendered message with location, pointer classes, emitted text) equals the observation of the same call alone on a fresh thread; for nested calls the inner observation equals the isolated inner call and the outer observation equals the same outer document parsed without a nested call; isolated observations are equal on two fresh threads and contain the documented constants (sharing classes, anchors &a1/*a1). Exhaustive: all histories of length <= 3 over the full alphabet (quick; thorough: <= 4), all of length 4 over a 28-call core alphabet; random histories of length 4..12. Non-trivial: a failing / panicking / nested / abandoned call precedes a call whose observation includes pointer classes or a fallback location. distinct = distinct histories.".into()
     }
     fn assumptions() -> Vec<String> {
         vec![
@@ -909,14 +932,14 @@ impl Property for C15 {
         let mut s = a.clone();
         s.sort();
         s.dedup();
-        if s.len() != a.len() || a.len() != 53 {
-            return Err(format!("alphabet has {} symbols ({} distinct), expected 53", a.len(), s.len()));
+        if s.len() != a.len() || a.len() != 54 {
+            return Err(format!("alphabet has {} symbols ({} distinct), expected 54", a.len(), s.len()));
         }
         // (the exact-limit calls check themselves: their isolated observation must contain
         // "at-limit: OK" and "below: ERR")
         Ok(())
     }
-    /// libFuzzer input: a history of up to 12 calls, one byte per call over the 53-call alphabet
+    /// libFuzzer input: a history of up to 12 calls, one byte per call over the 54-call alphabet
     fn fuzz_decode(data: &[u8]) -> Option<(&'static str, Case, bool)> {
         let alpha = alphabet();
         let calls: Vec<Call> = data.iter().take(12).map(|x| alpha[*x as usize % alpha.len()]).collect();
